@@ -143,9 +143,14 @@ def shared_writes(res, prog):
                         pt = show(f.place_tree(s['lhs']))
                         if 'deref_mut' in pt and 'MutexGuard' in pt:
                             res.rule('C13.2', 1)
-                            rv = f.expand(f.rvalue_tree(s['rv']))
-                            if rv[0] == 'bin' and rv[1] == 'Add' and rv[3][0] == 'int':
+                            rv = f.rvalue_tree(s['rv'])
+                            # commutative only as a read-modify-write of the same place in one statement (one guard);
+                            # a sum computed before an await and stored after it is a lost update
+                            if rv[0] == 'bin' and rv[1] == 'Add' and rv[3][0] == 'int' and show(rv[2]) == show(f.place_tree(s['lhs'])):
                                 res.sample({'rule': 'C13.2', 'fn': f.qual, 'write': pt[-60:] + ' += ' + show(rv[3]), 'verdict': 'commutative'}) if len(res.samples) < 30 else None
+                            elif cn == 'breakpad_symbols':
+                                res.violation('C13.2', 'C13.2|%s|store|%s' % (f.qual, pt.split('.')[-1][:40]), f, s.get('line'),
+                                              'non-commutative store %s = %s into state shared by concurrently polled lookups: the final value depends on completion order' % (pt[-70:], show(rv)[:100]))
                             else:
                                 pass  # plain assignments under the processor-stats lock feed the interactive UI only (see table below)
             for b, t in f.calls():
